@@ -36,7 +36,11 @@ const (
 	FStall       = "stall"
 	FDelay       = "delay"
 	FChunk       = "chunk"
-	FRefuse      = "refuse"
+	// FNoLength: the complete body without a Content-Length, delimited by
+	// the end of the connection (as a server that streams or flushes early
+	// answers), in pieces of K bytes if K > 0. Benign.
+	FNoLength = "no-length"
+	FRefuse   = "refuse"
 	// FHold leaves the request pending for this step (the policy did
 	// something else, e.g. cancelled the caller's context).
 	FHold = "hold"
@@ -72,7 +76,7 @@ func (f FaultSpec) String() string {
 }
 
 // Benign reports whether the fault must not change any outcome.
-func (f FaultSpec) Benign() bool { return f.Kind == FNone || f.Kind == FChunk }
+func (f FaultSpec) Benign() bool { return f.Kind == FNone || f.Kind == FChunk || f.Kind == FNoLength }
 
 // ReqRecord is one HTTP request observed at a simulated server.
 type ReqRecord struct {
@@ -414,6 +418,9 @@ func (n *Net) serve(conn net.Conn, srv *Server, isTLS bool, link *connLink) {
 		if chunk <= 0 {
 			chunk = 1
 		}
+	case FNoLength:
+		useCL = false
+		chunk = spec.K
 	}
 	q.RespBody = out
 	q.RespLen = len(out)
